@@ -55,6 +55,9 @@ func ZZ_C35_split() {
 			p += zzvt.Ite64(v.Votes[j].Vote, 1, 0)
 		}
 		pos = append(pos, p)
+		for _, w := range vc.Verdicts { // verdicts of one extrinsic have distinct targets (10.7)
+			zzvt.Assume(w.Verdict.Target != v.Target)
+		}
 		vc.Verdicts = append(vc.Verdicts, VerdictWrapper{v})
 	}
 	vc.GenerateVerdictSumSequence()
